@@ -37,6 +37,41 @@ pub fn check_frame(shape: &Shape, value: &Value, l: &mut Local) -> CaseResult {
     if s.as_deref() != Ok(&want[..]) {
         return Err(fail("frame", format!("to_slice_cobs = {:?}, reference {}", s.map(|b| hex(&b)), hex(&want)), cj()));
     }
+    // whatever the size of the caller's slice: the call fails, or what it returns is the frame
+    {
+        let m = want.len();
+        let mut caps = vec![m.saturating_sub(2), m.saturating_sub(1), m, m + 1, 2 * m.saturating_sub(2), 2 * m.saturating_sub(2) + 1, 2 * m, 2 * m + 1, 63, 64, 65, 128];
+        caps.dedup();
+        for c in caps {
+            let mut buf = vec![0x5Au8; c];
+            let s = no_panic(|| postcard::to_slice_cobs(&t, &mut buf).map(|s| s.to_vec())).map_err(|p| fail("frame", format!("to_slice_cobs panicked: {}", p), cj()))?;
+            match s {
+                Ok(b) if b == want => {}
+                // (when the call must succeed is C05's statement)
+                Err(_) => {}
+                other => {
+                    return Err(fail("frame", format!("to_slice_cobs into {} bytes = {:?}, reference {} ({} bytes)", c, other.map(|b| hex(&b)), hex(&want), m), cj()));
+                }
+            }
+        }
+        macro_rules! hv {
+            ($($n:literal),*) => {$(
+                let s = no_panic(|| postcard::to_vec_cobs::<_, $n>(&t).map(|s| s.to_vec())).map_err(|p| fail("frame", format!("to_vec_cobs panicked: {}", p), cj()))?;
+                match s {
+                    Ok(b) if b == want => {}
+                    Err(_) => {}
+                    other => {
+                        return Err(fail("frame", format!("to_vec_cobs::<_, {}> = {:?}, reference {} ({} bytes)", $n, other.map(|b| hex(&b)), hex(&want), m), cj()));
+                    }
+                }
+            )*};
+        }
+        if m <= 12 {
+            hv!(1, 2, 3, 4, 5, 6, 7, 8, 9, 10, 11, 12);
+        } else if (250..=262).contains(&m) {
+            hv!(253, 254, 255, 256, 257, 258, 259, 260);
+        }
+    }
     if want.len() <= 2048 {
         let s = no_panic(|| postcard::to_vec_cobs::<_, 2048>(&t).map(|s| s.to_vec())).map_err(|p| fail("frame", format!("to_vec_cobs panicked: {}", p), cj()))?;
         if s.as_deref() != Ok(&want[..]) {
